@@ -30,7 +30,9 @@
 EXTENDS ServerCore, Json
 
 CONSTANTS Focus, MaxOps, MaxProbes,
-          SetLevels      \* levels the application may switch a node to at run time ({} = never)
+          SetLevels,     \* levels the application may switch a node to at run time ({} = never)
+          BadActivations \* session focus: s2 may attempt an activation with a signature that does not verify:
+                         \* "no" | "leaf" (nothing but probes follows the rejection) | "full" (the life cycle goes on)
 
 VARIABLES hist,    \* the script so far: sequence of abstract requests
           nsub, nitem, probes
@@ -113,8 +115,12 @@ GCreateItem(c) == \E k \in SubRefs, n \in NodeSet :
 ItemRes(c, k) == IF ~Valid(c) THEN "sessErr"
                  ELSE IF k \notin DOMAIN items THEN "badId"
                  ELSE IF items[k].owner # c THEN "notOwner" ELSE "ok"
-GSetMode(c)    == \E k \in ItemRefs : SetMode(c, k, ItemRes(c, k)) /\ Rec(Op("SetMode", c, "", 0, k, 0))
-GDeleteItem(c) == \E k \in ItemRefs : DeleteItem(c, k, ItemRes(c, k)) /\ Rec(Op("DeleteItem", c, "", 0, k, 0))
+\* k2 = the SubscriptionId parameter of the request: 0 = the subscription the item lives in, else the
+\* k2-th subscription created (one of the caller's own): the per-item answer must not depend on it
+OwnSubs(c) == {i \in DOMAIN subs : subs[i] = c}
+SubParam(c) == {0} \cup IF Focus \in {"ids", "batch"} THEN OwnSubs(c) ELSE {}
+GSetMode(c)    == \E k \in ItemRefs, k2 \in SubParam(c) : SetMode(c, k, ItemRes(c, k)) /\ Rec(Op("SetMode", c, "", 0, k, k2))
+GDeleteItem(c) == \E k \in ItemRefs, k2 \in SubParam(c) : DeleteItem(c, k, ItemRes(c, k)) /\ Rec(Op("DeleteItem", c, "", 0, k, k2))
 \* v = the DeleteSubscriptions flag of the request (1 = true)
 GClose(c) == /\ Close(c, IF c \in Sessions /\ sess[c] \in {"created", "activated"} THEN "ok" ELSE "sessErr", {})
              /\ \E v \in {0, 1} : Rec(Op("Close", c, "", v, 0, 0))
@@ -122,14 +128,21 @@ GClose(c) == /\ Close(c, IF c \in Sessions /\ sess[c] \in {"created", "activated
 GSetLevel == \E n \in NodeSet, w \in {"al", "ual"}, lv \in SetLevels :
                 SetLevel(n, w, lv) /\ Rec(Op("SetLevel", w, lv, 0, 0, 0))
 GCreateSession(s) == CreateSession(s) /\ Rec(Op("CreateSession", s, "", 0, 0, 0))
-GActivate(c) == /\ Activate(c, IF c \in Sessions /\ sess[c] \in {"created", "activated"} THEN "ok" ELSE "sessErr")
+GActivate(c) == /\ Activate(c, IF c \in Sessions /\ sess[c] \in {"created", "activated"} THEN "ok" ELSE "sessErr", FALSE)
                 /\ Rec(Op("Activate", c, "", 0, 0, 0))
+\* an activation whose client signature does not verify (op.v = 1): rejected, the session stays as it was
+RejectedOnce(c) == \E j \in DOMAIN hist : hist[j].op = "Activate" /\ hist[j].c = c /\ hist[j].v = 1
+GActivateBad(c) == /\ c \in Sessions /\ sess[c] = "created"
+                   /\ ~RejectedOnce(c)
+                   /\ Activate(c, "secErr", TRUE)
+                   /\ Rec(Op("Activate", c, "", 1, 0, 0))
 
 Counters == /\ nsub'  = IF last'.svc = "CreateSub"  /\ last'.res = "ok" THEN nsub + 1 ELSE nsub
             /\ nitem' = IF last'.svc = "CreateItem" /\ last'.res = "ok" THEN nitem + 1 ELSE nitem
 
 Probe(c) == GRead(c) \/ GWrite(c) \/ GBrowse(c) \/ GUnsup(c) \/ GCreateSub(c) \/ GDeleteSub(c)
             \/ GCreateItem(c) \/ GSetMode(c) \/ GDeleteItem(c) \/ GClose(c)
+            \/ (Focus = "session" /\ GActivate(c))      \* activation with a token in any state
 
 GNext ==
    /\ Len(hist) < MaxOps
@@ -139,7 +152,12 @@ GNext ==
              \/ /\ probes < MaxProbes
                 /\ \E c \in {"s2"} \cup Ghosts : Probe(c)
                 /\ probes' = probes + 1
-             \/ /\ (GCreateSession("s2") \/ GActivate("s2") \/ (Valid("s2") /\ GClose("s2")))
+             \/ /\ probes < MaxProbes        \* a script ends with its last probe
+                /\ \/ BadActivations # "no" /\ GActivateBad("s2")
+                   \/ /\ BadActivations = "leaf" => ~RejectedOnce("s2")
+                      /\ \/ GCreateSession("s2")
+                         \/ sess["s2"] = "created" /\ GActivate("s2")
+                         \/ Valid("s2") /\ GClose("s2")
                 /\ probes' = probes
         [] Focus = "ids" ->
              /\ \E c \in Sessions : GCreateSub(c) \/ GDeleteSub(c) \/ GCreateItem(c) \/ GSetMode(c) \/ GDeleteItem(c)
@@ -149,7 +167,8 @@ GNext ==
              /\ probes < MaxProbes
              /\ GDeleteSub("s2") \/ GSetMode("s2") \/ GDeleteItem("s2")
              /\ probes > 0 => hist'[Len(hist')].op = hist[Len(hist)].op
-             /\ \A j \in (Len(hist) - probes + 1)..Len(hist) : hist[j].k # hist'[Len(hist')].k
+             /\ \A j \in (Len(hist) - probes + 1)..Len(hist) :
+                   hist[j].k # hist'[Len(hist')].k /\ hist[j].k2 = hist'[Len(hist')].k2
              /\ probes' = probes + 1
         [] Focus = "freshsub" ->
              /\ (GCreateSub("s1") \/ GDeleteSub("s1")) /\ last'.res = "ok" /\ probes' = probes
@@ -161,7 +180,7 @@ GSpec == GInit /\ [][GNext]_gvars
 
 \* the contract invariants also hold along every generated script
 Terminal == CASE Focus = "access"  -> Len(hist) = MaxOps
-              [] Focus = "session" -> probes = MaxProbes /\ last.svc \in Protected /\ last.c # "s1"
+              [] Focus = "session" -> probes = MaxProbes /\ last.c # "s1"
               [] Focus = "batch" -> probes = MaxProbes
               [] Focus \in {"ids", "freshsub", "freshitem"} -> Len(hist) = MaxOps
 \* batch = number of trailing requests of the script that travel in ONE service request
